@@ -21,6 +21,7 @@ ITEMS = {
     "desc/fields_type_description": ("description::fields_type_description", "scale_typegen_description"),
     "desc/type_name_with_type_params": ("description::type_name_with_type_params", "scale_typegen_description"),
     "desc/primitive_type_description": ("description::primitive_type_description", "scale_typegen_description"),
+    "gen/types_equal_inner": ("utils::types_equal_inner", "scale_typegen"),
     "rust/ty_example": ("rust_value::ty_example", "scale_typegen_description"),
     "rust/fields_example": ("rust_value::fields_example", "scale_typegen_description"),
     "rust/primitive_example": ("rust_value::primitive_example", "scale_typegen_description"),
